@@ -245,6 +245,9 @@ func (s *Sim) Logf(format string, args ...interface{}) {
 }
 
 func (s *Sim) logLocked(format string, args ...interface{}) {
+	if s.aborting.Load() {
+		return // unwinding goroutines run concurrently at teardown: nothing they do is part of the run
+	}
 	line := fmt.Sprintf(format, args...)
 	h := s.hash
 	for i := 0; i < len(line); i++ {
@@ -881,6 +884,9 @@ func (s *Sim) enabledLocked(t *Task) bool {
 func (s *Sim) Stop() { s.mu.Lock(); s.stopReq = true; s.mu.Unlock() }
 
 func (s *Sim) teardown() {
+	s.mu.Lock()
+	s.current = nil
+	s.mu.Unlock()
 	s.aborting.Store(true)
 	close(s.abort)
 	// Everything that was parked or blocked in an instrumented operation now unwinds.
